@@ -219,13 +219,13 @@ def _defaults(db, chk, cg):
     rule = "C13.R2-defaults"
     f = cg.func("CallGraph._build_call_stacks")
     init = {}
-    for n in f.body:
+    for n in H.unroll_literal_loops(cg, f).body:
         if isinstance(n, ast.Assign) and isinstance(n.targets[0], ast.Subscript) and ast.unparse(n.targets[0].value) == "df.loc":
             key = n.targets[0].slice
             if isinstance(key, ast.Tuple) and ast.unparse(key.elts[0]) == "df.index" and isinstance(key.elts[1], ast.Constant):
                 init[key.elts[1].value] = lit(n.value)
     want = {"depth": -1, "height": -1, "parent": -1, "num_kernels": 0, "kernel_dur_sum": 0, "kernel_span": 0, "first_kernel_start": -1, "last_kernel_end": -1}
-    chk.ob(rule, "stack columns are initialised on every row before the stacks are built", init == want, cg.loc(f), found=init, accepted=want,
+    chk.ob(rule, "stack columns are initialised on every row before the stacks are built", (init == want) if init else None, cg.loc(f), found=init, accepted=want,
            why="events without kernels must report (0, 0, -1, -1, 0)")
     cols = lit(cg.cls("CallGraph").body[[i for i, s in enumerate(cg.cls("CallGraph").body) if isinstance(s, (ast.Assign, ast.AnnAssign)) and "stack_columns" in ast.unparse(s)][0]].value) \
         if any(isinstance(s, (ast.Assign, ast.AnnAssign)) and "stack_columns" in ast.unparse(s) for s in cg.cls("CallGraph").body) else None
@@ -266,6 +266,107 @@ def _link(db, chk, cs):
     chk.analysed_add("functions", [f"{CS}:CallStackGraph._link_cpu_and_gpu"])
 
 
+def _backward_parents(db, chk, cg, rule):
+    """decision table of CallGraph._link_main_and_bwd_stacks, read off the evaluated paths: which events of THIS rank's main thread become candidate parents.
+    L(x) = the ids of the main thread's events whose name starts with x.   L(annotation) non-empty -> L(annotation);  else L('ProfilerStep#') non-empty -> that;  else nothing."""
+    ref = f"{CG}:CallGraph._link_main_and_bwd_stacks"
+    h = cg.func("CallGraph._link_main_and_bwd_stacks")
+    where = cg.loc(h)
+    hp = [p_ for p_ in H.param_names(h) if p_ != "self"]
+    MD = ("param", "MAIN")
+    ANN = T.P("ANN")
+
+    def hook(I, name, pos, kw, node):
+        if name.endswith("update_parent_of_first_layer_nodes"):
+            I.log("bwd-parent", node, term=to_term(pos[0]) if pos else None)
+            return None
+        if name.endswith("get_sym_id_map"):
+            return T.P("SYMMAP")
+        return NotImplemented
+
+    if len(hp) < 3:
+        chk.ob(rule, "_link_main_and_bwd_stacks(main, bwd, annotation) recognised", None, where, found=hp)
+        return
+    I = Interp(db, call_hook=hook)
+    env = lambda I: {"self": Obj("self", cls=(cg, "CallGraph"), attrs={"trace_data": Obj("td", attrs={"symbol_table": Obj("symtab", attrs={})})}),
+                     hp[0]: Obj("main", attrs={"df": Frame(MD)}), hp[1]: Obj("bwd", attrs={}), hp[2]: ANN}
+    runs = [r for r in I.explore(ref, env) if r.raised is None]
+    chk.analysed_add("functions", ref)
+
+    def which(L):
+        """'ann' / 'ps' when L is  [ids of MAIN rows whose name is a symbol id of a name starting with <x>]"""
+        if not (isinstance(L, tuple) and len(L) == 3 and L[0] == "tolist" and L[1] == T.col(MD, "index")):
+            return None
+        ctx = L[2]
+        if not (isinstance(ctx, tuple) and len(ctx) == 3 and ctx[0] == MD and isinstance(ctx[1], tuple) and ctx[1][0] == "in" and ctx[1][1] == T.col(MD, "name")):
+            return None
+        vs = ctx[1][2]
+        if not (isinstance(vs, tuple) and vs[0] == "valuesof" and vs[1] == ("series", T.P("SYMMAP")) and isinstance(vs[2], tuple) and len(vs[2]) == 3):
+            return None
+        pred = vs[2][1]
+        if not (isinstance(pred, tuple) and len(pred) >= 4 and pred[0] == "strmatch" and pred[1] == "startswith" and isinstance(pred[2], tuple) and pred[2][0] == "index"):
+            return None
+        return "ann" if pred[3] == ANN else "ps" if pred[3] == T.C("ProfilerStep#") else None
+
+    def atom(c):
+        """(which list, non-empty?) for an emptiness test of one of the two candidate lists; 'foreign' for an emptiness test of something not derived from this rank's main thread"""
+        neg = False
+        if isinstance(c, tuple) and c and c[0] == "not":
+            neg, c = True, c[1]
+        L, val = None, None
+        if isinstance(c, tuple) and c and c[0] == "truthy":
+            L, val = c[1], True
+        elif isinstance(c, tuple) and len(c) == 3 and c[0] == "cmp" and isinstance(c[2], tuple) and c[2] and c[2][0] in ("len", "nrows") and c[1] in (">", "<=", "!=", "=="):
+            L, val = c[2][1], c[1] in (">", "!=")
+        if L is None:
+            return None
+        w = which(L)
+        if w is None:
+            return "foreign" if not T.find(L, lambda x: x == MD) else None
+        return (w, val != neg)
+
+    table, verdict, det = {}, True, []
+    for r in runs:
+        atoms = [atom(c) for c in r.path]
+        if any(a_ == "foreign" for a_ in atoms):
+            chk.ob(rule, "a candidate annotation is chosen iff THIS rank's main thread has such events", False, where, found=[T.show(c)[:200] for c in r.path],
+                   accepted="the test looks at main_stack.df", why="deciding by the all-ranks symbol table leaves a rank without backward annotations unattached when another rank has them")
+            return
+        if any(a_ is None for a_ in atoms):
+            verdict = None
+            det.append("condition not understood: " + "; ".join(T.show(c)[:160] for c, a_ in zip(r.path, atoms) if a_ is None))
+            continue
+        known = dict(atoms)
+        if any((w_, not v_) in atoms for w_, v_ in atoms):
+            continue          # contradictory conditions: not a feasible path
+        used = set()
+        for e in r.events:
+            if e["kind"] != "bwd-parent":
+                continue
+            t = e["term"]
+            w = which(t[1]) if isinstance(t, tuple) and len(t) == 2 and t[0] == "elem" else None
+            if w is None:
+                verdict = None
+                det.append("parent not understood: " + T.show(t)[:160])
+                continue
+            if known.get(w) is False:
+                continue          # iterating a list known to be empty on this path: no call
+            used.add(w)
+        for a_ in (True, False):
+            for p_ in (True, False):
+                if all(known.get(k, v) == v for k, v in (("ann", a_), ("ps", p_))):
+                    table.setdefault((a_, p_), []).append(sorted(used))
+    want = {(True, True): [["ann"]], (True, False): [["ann"]], (False, True): [["ps"]], (False, False): [[]]}
+    if verdict is not None:
+        verdict = table == want
+    df_default = H.param_default(h, hp[2])
+    chk.ob(rule, "candidate annotations are tried in the order '## backward ##' then 'ProfilerStep#', a candidate is chosen iff THIS rank's main thread has such events, and no candidate -> nothing is attached",
+           (verdict and lit(df_default) == "## backward ##") if verdict is not None else None, where,
+           found={"table (annotation present, ProfilerStep present) -> parents": {str(k): v for k, v in sorted(table.items())}, "default": lit(df_default), "notes": det[:3]},
+           accepted={"(True, *)": "main-thread events named <annotation>*", "(False, True)": "main-thread ProfilerStep# events", "(False, False)": "none", "default": "## backward ##"},
+           why="deciding by the all-ranks symbol table leaves a rank without backward annotations unattached when another rank has them")
+
+
 def _backward(db, chk, cs, cg, rule="C13.R4-backward-attachment"):
     f = cg.func("CallGraph._connect_stacks")
     sel = H.find_match("self.mapping['label'].isin(['bwd', 'main'])", f) + H.find_match("self.mapping['label'].isin(['main', 'bwd'])", f)
@@ -297,32 +398,11 @@ def _backward(db, chk, cs, cg, rule="C13.R4-backward-attachment"):
            accepted="self.mapping['rank'].eq(rank) & self.mapping['label'].isin(['bwd', 'main'])", why="without the rank condition the selection holds the stacks of all ranks built so far: from the second rank on it never has exactly two rows and nothing is attached")
     chk.ob(rule, "attachment only when the rank has exactly one main and one bwd stack; sorted by label so that index 0 is bwd and 1 is main", ok, cg.loc(f),
            found=[ast.unparse(s)[:120] for s in f.body], accepted="label isin [bwd, main] sorted by label ascending; shape[0] == 2; bwd = stack [0], main = stack [1]")
-    g = cg.func("CallGraph._link_main_and_bwd_stacks._get_backward_parents")
-    loops = [n for n in g.body if isinstance(n, ast.For)]
-    okp = False
-    det = []
-    if len(loops) == 1:
-        lp = loops[0]
-        order = [ast.unparse(e) for e in lp.iter.elts] if isinstance(lp.iter, ast.List) else []
-        rets = [n for n in ast.walk(lp) if isinstance(n, ast.Return)]
-        det = order
-        if len(rets) == 1:
-            var = H.name_id(rets[0].value)
-            defs = [ast.unparse(v) for t, v, s in H.assignments(lp) if H.name_id(t) == var]
-            guard = cg.parent.get(id(rets[0]))
-            gt = ast.unparse(guard.test).replace(" ", "") if isinstance(guard, ast.If) else ""
-            det = order + defs + [gt]
-            gok = isinstance(guard, ast.If) and (H.match(f"len({var}) > 0", guard.test) is not None or H.match(f"{var}", guard.test) is not None or H.match(f"len({var}) != 0", guard.test) is not None)
-            okp = order == ["bwd_annotation_str", "'ProfilerStep#'"] and len(defs) == 1 and "main_stack.df[" in defs[0] and ".isin(" in defs[0] and gok
-    df_default = H.param_default(cg.func("CallGraph._link_main_and_bwd_stacks"), "bwd_annotation_str")
-    chk.ob(rule, "candidate annotations are tried in the order '## backward ##' then 'ProfilerStep#', and a candidate is chosen iff THIS rank's main thread has such events", okp and lit(df_default) == "## backward ##",
-           cg.loc(g), found=det, accepted=["bwd_annotation_str ('## backward ##')", "'ProfilerStep#'", "indices from main_stack.df[...isin(ids)]", "len(indices) > 0"],
-           why="deciding by the all-ranks symbol table leaves a rank without backward annotations unattached when another rank has them")
-    tail = [n for n in g.body if isinstance(n, ast.Return)]
-    chk.ob(rule, "no candidate present -> nothing is attached", len(tail) == 1 and ast.unparse(tail[0].value) == "[]", cg.loc(g), found=[ast.unparse(t) for t in tail], accepted="return []")
+    _backward_parents(db, chk, cg, rule)
     h = cg.func("CallGraph._link_main_and_bwd_stacks")
     calls = [c for c in walk_no_nested(h) if isinstance(c, ast.Call) and isinstance(c.func, ast.Attribute) and c.func.attr == "update_parent_of_first_layer_nodes"]
-    chk.ob(rule, "every chosen annotation event becomes the candidate parent of the autograd thread's top-level operators", len(calls) == 1 and ast.unparse(calls[0].func.value) == "bwd_stack", cg.loc(h),
+    hp = [p_ for p_ in H.param_names(h) if p_ != "self"]
+    chk.ob(rule, "every chosen annotation event becomes the candidate parent of the autograd thread's top-level operators", len(calls) == 1 and len(hp) >= 2 and ast.unparse(calls[0].func.value) == hp[1], cg.loc(h),
            found=[ast.unparse(c) for c in calls], accepted="bwd_stack.update_parent_of_first_layer_nodes(idx)")
     # containment test
     u = cs.func("CallStackGraph.update_parent_of_first_layer_nodes")
